@@ -77,6 +77,9 @@ type Wrap struct {
 	// IterFault, if set, is asked before every Next of every iterator (n = number of Next calls made on that
 	// iterator so far); a non-nil error is returned to the caller instead of advancing.
 	IterFault func(start, end []byte, n int) error
+	// AfterGet, if set, is called after every point read returned (the caller is a goroutine of the system under test:
+	// blocking here is a descheduled reader that has its value in hand).
+	AfterGet func(key, val []byte, err error)
 
 	seq int64
 }
@@ -100,6 +103,15 @@ func (w *Wrap) GetPartitions(ctx context.Context, start, end []byte) ([]storage.
 		}
 	}
 	return w.KvStorage.GetPartitions(ctx, start, end)
+}
+
+// Get implements storage.KvStorage
+func (w *Wrap) Get(ctx context.Context, key []byte) ([]byte, error) {
+	val, err := w.KvStorage.Get(ctx, key)
+	if f := w.AfterGet; f != nil {
+		f(key, val, err)
+	}
+	return val, err
 }
 
 // Del implements storage.KvStorage
